@@ -326,6 +326,11 @@ func (c *Config) UnmarshalYAML(unmarshal func(any) error) error {
 		c.Global = &GlobalConfig{}
 		*c.Global = DefaultGlobalConfig()
 	}
+	// Likewise, an http_config key left empty overwrites the default with nil.
+	if c.Global.HTTPConfig == nil {
+		defaultHTTPConfig := commoncfg.DefaultHTTPClientConfig
+		c.Global.HTTPConfig = &defaultHTTPConfig
+	}
 
 	if c.Global.SlackAppToken != "" && len(c.Global.SlackAppTokenFile) > 0 {
 		return errors.New("at most one of slack_app_token & slack_app_token_file must be configured")
